@@ -200,6 +200,74 @@ func init() {
 		}
 		b.WriteString("\n")
 
+		// ---- https.go: the order in which activateHTTPS runs the stages (it cannot be run by the harness: it obtains certificates) ----
+		hf, err := Parse(filepath.Join(repo, "caskethttp/httpserver/https.go"))
+		if err != nil {
+			return err
+		}
+		act, err := hf.Func("", "activateHTTPS")
+		if err != nil {
+			return err
+		}
+		interesting := map[string]bool{"markQualifiedForAutoHTTPS": true, "ObtainCertAsync": true, "enableAutoHTTPS": true,
+			"makePlaintextRedirects": true, "RenewManagedCertificates": true, "redirPlaintextHost": true, "MakeServers": true}
+		var order []string
+		ast.Inspect(act, func(n ast.Node) bool {
+			ce, ok := n.(*ast.CallExpr)
+			if !ok {
+				return true
+			}
+			name := ""
+			switch f := ce.Fun.(type) {
+			case *ast.Ident:
+				name = f.Name
+			case *ast.SelectorExpr:
+				name = f.Sel.Name
+			}
+			if interesting[name] {
+				order = append(order, name)
+			}
+			return true
+		})
+		fmt.Fprintf(b, "/-- caskethttp/httpserver/https.go:activateHTTPS: the stage calls in source order -/\ndef activateStages : List String := %s\n", LeanStringList(order))
+		// the result of makePlaintextRedirects must be stored back into ctx.siteConfigs
+		stored := false
+		ast.Inspect(act, func(n ast.Node) bool {
+			as, ok := n.(*ast.AssignStmt)
+			if !ok || len(as.Lhs) != 1 || len(as.Rhs) != 1 {
+				return true
+			}
+			sel, ok := as.Lhs[0].(*ast.SelectorExpr)
+			ce, ok2 := as.Rhs[0].(*ast.CallExpr)
+			if ok && ok2 && sel.Sel.Name == "siteConfigs" {
+				if id, ok := ce.Fun.(*ast.Ident); ok && id.Name == "makePlaintextRedirects" {
+					stored = true
+				}
+			}
+			return true
+		})
+		fmt.Fprintf(b, "/-- activateHTTPS stores the result of makePlaintextRedirects into ctx.siteConfigs -/\ndef activateStoresRedirects : Bool := %v\n", stored)
+		// plugin.go: activateHTTPS is the parsing callback that runs after the tls directive
+		ini, err := pf.Func("", "init")
+		if err != nil {
+			return err
+		}
+		var cbs []string
+		ast.Inspect(ini, func(n ast.Node) bool {
+			ce, ok := n.(*ast.CallExpr)
+			if !ok {
+				return true
+			}
+			if sel, ok := ce.Fun.(*ast.SelectorExpr); ok && sel.Sel.Name == "RegisterParsingCallback" && len(ce.Args) == 3 {
+				dir, _ := StringLit(ce.Args[1])
+				if id, ok := ce.Args[2].(*ast.Ident); ok {
+					cbs = append(cbs, dir+":"+id.Name)
+				}
+			}
+			return true
+		})
+		fmt.Fprintf(b, "/-- caskethttp/httpserver/plugin.go:init: parsing callbacks as directive:function -/\ndef parsingCallbacks : List String := %s\n\n", LeanStringList(cbs))
+
 		// ---- certmagic ----
 		cd, err := certmagicDir(repo)
 		if err != nil {
